@@ -349,7 +349,17 @@ class Documentable:
     def resolveName(self, name: str) -> Optional['Documentable']:
         """Return the object named by "name" (using Python's lookup rules) in
         this context, if any is known to pydoctor."""
-        return self.system.objForFullName(self.expandName(name))
+        full_name = self.expandName(name)
+        obj = self.system.objForFullName(full_name)
+        if obj is None:
+            # The expanded name might be outdated if the object was reparented
+            # after the name was recorded: follow the alias left at the
+            # original location.
+            try:
+                obj = self.system.find_object(full_name)
+            except LookupError:
+                obj = None
+        return obj
 
     @property
     def privacyClass(self) -> PrivacyClass:
